@@ -3,7 +3,9 @@
 For property P the variants are
   * every confirmed seeded change kept under /verif/seeded/<P>-m*/patch.diff (a realistic defect that passes the pinned tests),
   * every "fixed:" entry of /verif/known_findings.json for P: the fix commit applied in reverse (the genuine defect re-introduced),
-  * the twin: the unchanged tree copied the same way (must stay silent).
+  * the twins: the unchanged tree copied the same way, and the behaviour-preserving rewrites listed in /verif/twins/<P>.json
+    (renamed variables, swapped independent loops, loops instead of comprehensions, reordered literals ...): all must stay silent,
+    one that is reported is printed as ``ANALYSIS-NOISY``.
 Each variant is a copy of <repo>/cnfgen in a directory created and removed by this run; the quick rules are run on it (static analysis
 again -- nothing is executed).  The outcome never changes the exit code of the check: a variant the rules do not report is printed as
 ``ANALYSIS-WEAK`` and recorded in the evidence file, a variant that does not apply to the current tree is recorded as skipped.
@@ -27,7 +29,23 @@ def _run_variant(pid, kind, name, patch_text, reverse):
     try:
         shutil.copytree(os.path.join(src_root, "cnfgen"), os.path.join(d, "cnfgen"),
                         ignore=shutil.ignore_patterns("__pycache__", "*.pyc"))
-        if patch_text is not None:
+        if isinstance(patch_text, dict):
+            # a behaviour-preserving rewrite given as text replacements (twins/<P>.json)
+            p = os.path.join(d, patch_text["file"])
+            with open(p) as fh:
+                text = fh.read()
+            edits = [[patch_text["old"], patch_text["new"]]] + list(patch_text.get("also", []))
+            if any(text.count(o) != 1 for o, _ in edits):
+                return {"variant": name, "kind": kind, "status": "skipped", "why": "the text to rewrite is not in the current tree"}
+            for o, n in edits:
+                text = text.replace(o, n)
+            try:
+                compile(text, p, "exec")
+            except SyntaxError:
+                return {"variant": name, "kind": kind, "status": "skipped", "why": "rewrite does not parse"}
+            with open(p, "w") as fh:
+                fh.write(text)
+        elif patch_text is not None:
             cmd = ["git", "apply", "--whitespace=nowarn"] + (["-R"] if reverse else [])
             r = subprocess.run(cmd, input=patch_text, cwd=d, stdout=subprocess.PIPE, stderr=subprocess.STDOUT, text=True)
             if r.returncode:
@@ -53,7 +71,11 @@ def _variants(pid):
             if n.startswith(pid + "-") and os.path.exists(p):
                 with open(p) as fh:
                     out.append(("seeded", n, fh.read(), False))
-    root = repo_root()
+    tw = os.path.join(VERIF, "twins", pid + ".json")
+    if os.path.exists(tw):
+        with open(tw) as fh:
+            for t in json.load(fh):
+                out.append(("twin", "rewrite " + t["name"], t, False))
     for line in load_known().get("fixed", []):
         m = re.match(r"fixed: property=(\S+) ([0-9a-f]{7,40}) ", line)
         if not m or m.group(1) != pid:
@@ -73,13 +95,19 @@ def run_for(pid, prog):
     with ThreadPoolExecutor(max_workers=jobs) as ex:
         res = list(ex.map(lambda v: _run_variant(pid, v[0], v[1], v[2], v[3]) if v[2] != "" else
                           {"variant": v[1], "kind": v[0], "status": "skipped", "why": "fix commit not found in /repo history"}, vs))
-    twin = [r for r in res if r["kind"] == "twin"]
+    twins = [r for r in res if r["kind"] == "twin" and r["status"] != "skipped"]
+    noisy = [r for r in twins if r["status"] != "silent"]
+    twin = [{"status": "silent" if not noisy else "NOISY"}]
     broken = [r for r in res if r["kind"] != "twin" and r["status"] != "skipped"]
     detected = [r for r in broken if r["status"] == "violation"]
     weak = [r for r in broken if r["status"] != "violation"]
     print("SELFTEST property=%s variants=%d (seeded %d, fix reverts %d) reported=%d skipped=%d twin=%s" % (
         pid, len(broken), sum(r["kind"] == "seeded" for r in broken), sum(r["kind"] == "revert" for r in broken), len(detected),
         sum(r["status"] == "skipped" for r in res), twin[0]["status"] if twin else "n/a"))
+    print("SELFTEST property=%s behaviour-preserving twins=%d silent=%d" % (pid, len(twins), len(twins) - len(noisy)))
+    for r in noisy:
+        print("ANALYSIS-NOISY property=%s the behaviour-preserving variant `%s` is reported (%s): %s" % (
+            pid, r["variant"], r["status"], (r.get("findings") or r.get("errors") or [""])[0][:200]))
     for r in weak:
         print("ANALYSIS-WEAK property=%s variant=%s is not reported as a violation by this property's rules (%s)" % (pid, r["variant"], r["status"]))
     return {"variants": len(broken), "reported": len(detected), "twin": twin[0]["status"] if twin else None,
